@@ -60,7 +60,7 @@ var c11Flt = c11Codec[float64]{enc: func(x int) float64 { return float64(x) + 0.
 	badSc: "x", badSlice: []float32{1}}
 
 func c11Encs[T comparable](c c11Codec[T], xs []int) []T {
-	out := make([]T, len(xs))
+	out := allocWindow[T](len(xs)) // aliased mode: a window of one shared array (util.go)
 	for i, x := range xs {
 		out[i] = c.enc(x)
 	}
